@@ -44,7 +44,8 @@ func init() {
 			lvl = "proof"
 		}
 		mods := []string{}
-		factsOK := false
+		// every Flatten property rests on the orchestration skeleton regenerated from flatten.go (FactsOK/Flatten.lean)
+		factsOK := true
 		switch id {
 		case "C01":
 			mods = []string{"Verif.Properties.C01", "Verif.Properties.C01Move"}
